@@ -134,6 +134,7 @@ def run(ctx):
     numeric_chunks_are_numbers(ctx, "R11-e")
     macro_use_barrier_by_name(ctx, "R11-f")
     equality_is_finer_than_the_order(ctx, "R11-g")
+    names_are_ordered_by_their_text(ctx, "R11-h")
 
 
 def numeric_chunks_are_numbers(ctx, rid):
@@ -311,3 +312,36 @@ def equality_is_finer_than_the_order(ctx, rid):
         r.violation(rid, "equality of use trees is defined by their rank, not by their paths",
                     "`eq` %s: imports that differ only in an alias compare equal and one of them is dropped as a duplicate"
                     % ("calls cmp on the trees" if by_rank else "does not compare `path`"), ["%s:%d" % (eq.file, eq.line)])
+
+
+def names_are_ordered_by_their_text(ctx, rid):
+    """R11-h: no ordering on rustc_span::Symbol"""
+    import re
+    p, r = ctx.p, ctx.r
+    r.rule(rid, "who-may-call: `rustc_span::Symbol` (and `Ident` through it) implements Ord by the *index* the interner gave "
+                "the string — the order in which the names were first lexed — not by its text. An order of declarations that "
+                "consults it depends on what else the file (or an earlier file of the session) mentions, not on the elements "
+                "alone: two permutations of one group come out differently. No function of the library calls "
+                "`<Symbol as Ord / PartialOrd>::{cmp, partial_cmp, lt, le, gt, ge, max, min}` or instantiates a sort, "
+                "a BTreeMap / BTreeSet or a min/max adaptor with a Symbol key; names are compared through `as_str()`")
+    n_text = 0
+    hits = []
+    for c in p.all_calls():
+        if c.fn.crate != "rustfmt_nightly":
+            continue
+        if c.name.endswith("Symbol::as_str") or c.name.endswith("Ident::as_str"):
+            n_text += 1
+        direct = re.search(r"<rustc_span::(symbol::)?(Symbol|Ident) as std::cmp::(Ord|PartialOrd)(<[^>]*>)?>::", c.name) is not None
+        ga = " ".join(c.ga)
+        keyed = re.search(r"(sort|BTreeMap|BTreeSet|max_by_key|min_by_key|::max$|::min$|binary_search)", c.name) is not None and \
+            re.search(r"\brustc_span::(symbol::)?Symbol\b", ga) is not None and "as_str" not in ga
+        if direct or keyed:
+            hits.append(c)
+    for c in hits:
+        r.instance(rid, "%s orders by Symbol" % short(c.fn.root or c.fn.id), "violation", c.loc(), short(c.name)[:80])
+        r.violation(rid, "%s orders names by rustc_span::Symbol" % short(c.fn.root or c.fn.id),
+                    "`%s` compares interner indices: the order of the declarations follows the order in which the names first "
+                    "appeared anywhere in the input, not their text" % short(c.name)[:90], [c.loc()])
+    r.instance(rid, "orderings on Symbol in the library", "ok" if not hits else "violation", "",
+               "%d found; %d name comparisons go through as_str()" % (len(hits), n_text))
+    r.floor(rid, n_text, 20, "calls of Symbol::as_str / Ident::as_str in the library (names compared or printed by their text)")
